@@ -256,6 +256,12 @@ def decisions(rep, prog, cm):
             if qn.startswith("cell_divider::find_edge"):
                 continue
             raise AnalysisBroken("decision function %s not found" % qn)
+        for fn in prog.with_new_helpers(fn):
+            _decisions_in(rep, prog, fn)
+
+
+def _decisions_in(rep, prog, fn):
+    if True:
         points = {p["name"] for p in fn.get("params", []) if p["t"].replace("const ", "").replace(" &", "") == "vec3" and (p["name"] in ("p", "node_pos", "n1_pos", "n2_pos") or p["name"].endswith("_pos"))}
         for n in walk(fn["body"]):
             if n.get("k") == "BinaryOperator" and n.get("op") in ("<", ">", "<=", ">=", "==", "!="):
